@@ -52,7 +52,8 @@ func (in *Interp) schnorrSig(g *kGen) SliceV {
 	if long == nil {
 		long = ts.Str("<zero scalar>")
 	}
-	in.injUFs["schnorr.R"] = true
+	// (schnorr.R is injective - R = k*G - but the quadratic number of axioms is only paid where a harness asks for it:
+	// vf.Injective("schnorr.R"))
 	return in.strToBytes(ts.SConcat(ts.App("schnorr.R", StrSort, nonce), ts.App("schnorr.s", StrSort, long, nonce)))
 }
 
